@@ -161,6 +161,7 @@ type Exec struct {
 	loopCache map[*ssa.Function]*loopInfo
 	globalCells map[string]*Cell
 	BigWrites []BigWrite
+	Refine     []*Term // facts added only when re-solving a satisfiable obligation (counterexample refinement)
 	axiomsDone bool
 	Axioms     []*Term
 	AxiomNames []string
@@ -1241,6 +1242,32 @@ func (ex *Exec) pow2Term(y *Term, bits int) *Term {
 		if y.Val.IsInt64() && y.Val.Int64() >= 0 && y.Val.Int64() < 4096 {
 			return IntBig(Pow2(int(y.Val.Int64())))
 		}
+	}
+	if bits > 64 {
+		// wide exponents: 2^y stays uninterpreted (pow2u); only the bounds a proof may need are supplied, as
+		// instances for this very exponent term. Products/quotients by pow2u(y) then match syntactically on both
+		// sides of an obligation instead of being case-split 256 ways (which the solvers do not finish, measured).
+		ex.Funs["0uf_pow2u"] = "(declare-fun pow2u (Int) Int)"
+		t := App("pow2u", IntSort, y)
+		key := "pow2u:" + y.String()
+		if ex.constSeen == nil {
+			ex.constSeen = map[string]bool{}
+		}
+		if !ex.constSeen[key] {
+			ex.constSeen[key] = true
+			facts := []*Term{IGe(t, IntC(1))}
+			for _, k := range []int{8, 16, 32, 64, 127, 128, 255, 256} {
+				facts = append(facts, Implies(IGe(y, IntC(int64(k))), IGe(t, IntBig(Pow2(k)))))
+				facts = append(facts, Implies(ILt(y, IntC(int64(k))), ILt(t, IntBig(Pow2(k)))))
+			}
+			facts = append(facts, Implies(Eq(y, IntC(0)), Eq(t, IntC(1))))
+			// exact table: only used to refine a counterexample (it slows proofs down badly, measured)
+			for k := 0; k <= 256; k++ {
+				ex.Refine = append(ex.Refine, Implies(Eq(y, IntC(int64(k))), Eq(t, IntBig(Pow2(k)))))
+			}
+			ex.Assumes = append(ex.Assumes, And(facts...))
+		}
+		return t
 	}
 	name := fmt.Sprintf("pow2_%d", bits)
 	if _, ok := ex.Funs[name]; !ok {
